@@ -4,7 +4,8 @@ use crate::common::{guarded, hash128, Report, Tier, Violation};
 use darklua_core::{Options, Resources, WorkerTree};
 use rayon::prelude::*;
 use serde_json::json;
-use std::collections::{BTreeMap, HashMap, HashSet, VecDeque};
+use std::collections::{BTreeMap, HashMap, HashSet};
+use std::path::PathBuf;
 
 const CONFIGS: &[&str] = &[
     "{rules: [], bundle: {require_mode: 'path'}}",
@@ -21,6 +22,8 @@ fn initial_files() -> Vec<(&'static str, String)> {
         ("src/lib/b.lua", "-- b v0\nreturn 'b0'\n".to_owned()),
         ("src/util/c.lua", "-- c v0\ndo end\nreturn 'c0'\n".to_owned()),
         ("src/solo.lua", "-- solo v0\nreturn 'solo0'\n".to_owned()),
+        ("src/pkg/top.lua", "-- top v0\nreturn 'top0'\n".to_owned()),
+        ("src/pkg/deep/leaf.lua", "-- leaf v0\nreturn 'leaf0'\n".to_owned()),
         ("vendor/v.lua", "-- v v0\nreturn 'v0'\n".to_owned()),
         ("out/README.txt", "foreign readme".to_owned()),
         ("out/lib/keep.me", "foreign keep".to_owned()),
@@ -53,6 +56,8 @@ pub const EVENTS: &[Event] = &[
     Event::RemoveFile("vendor/v.lua"),
     Event::RemoveDir("src/lib"),
     Event::RemoveDir("src/util"),
+    Event::RemoveFile("src/pkg/top.lua"),
+    Event::RemoveDir("src/pkg/deep"),
     Event::Rename("src/solo.lua", "src/solo2.lua"),
     Event::SetConfig(1),
     Event::SetConfig(2),
@@ -63,21 +68,120 @@ pub const EVENTS: &[Event] = &[
     Event::Spurious("src/lib"),
 ];
 
-fn options() -> Options {
-    Options::new("src").with_output("out").with_configuration_at(".darklua.json")
+/// where the project lives: in-memory resources, or a temporary directory on the real file system
+#[derive(Clone)]
+struct Store {
+    res: Resources,
+    root: Option<PathBuf>,
+}
+
+impl Store {
+    fn path(&self, rel: &str) -> PathBuf {
+        match &self.root {
+            Some(r) => r.join(rel),
+            None => PathBuf::from(rel),
+        }
+    }
+    fn options(&self) -> Options {
+        Options::new(self.path("src")).with_output(self.path("out")).with_configuration_at(self.path(".darklua.json"))
+    }
+    fn get(&self, rel: &str) -> Option<String> {
+        match &self.root {
+            Some(_) => std::fs::read_to_string(self.path(rel)).ok(),
+            None => self.res.get(rel).ok(),
+        }
+    }
+    fn write(&self, rel: &str, content: &str) {
+        match &self.root {
+            Some(_) => {
+                let p = self.path(rel);
+                if let Some(parent) = p.parent() {
+                    let _ = std::fs::create_dir_all(parent);
+                }
+                let _ = std::fs::write(p, content);
+            }
+            None => {
+                let _ = self.res.write(rel, content);
+            }
+        }
+    }
+    fn remove_file(&self, rel: &str) {
+        match &self.root {
+            Some(_) => {
+                let _ = std::fs::remove_file(self.path(rel));
+            }
+            None => {
+                let _ = self.res.remove(rel);
+            }
+        }
+    }
+    /// files below `rel` (relative paths with `/`)
+    fn walk(&self, rel: &str) -> Vec<String> {
+        match &self.root {
+            Some(root) => {
+                fn rec(dir: &std::path::Path, root: &std::path::Path, out: &mut Vec<String>) {
+                    if let Ok(rd) = std::fs::read_dir(dir) {
+                        for e in rd.flatten() {
+                            let p = e.path();
+                            if p.is_dir() {
+                                rec(&p, root, out);
+                            } else if let Ok(r) = p.strip_prefix(root) {
+                                out.push(r.to_string_lossy().replace('\\', "/"));
+                            }
+                        }
+                    }
+                }
+                let mut out = Vec::new();
+                let start = root.join(rel);
+                if start.is_file() {
+                    out.push(rel.to_owned());
+                } else {
+                    rec(&start, root, &mut out);
+                }
+                out.sort();
+                out
+            }
+            None => {
+                let mut v: Vec<String> = self.res.walk(rel).map(|p| p.to_string_lossy().replace('\\', "/")).collect();
+                v.sort();
+                v
+            }
+        }
+    }
+    fn remove_dir(&self, rel: &str) {
+        match &self.root {
+            Some(_) => {
+                let _ = std::fs::remove_dir_all(self.path(rel));
+            }
+            None => {
+                for p in self.walk(rel) {
+                    let _ = self.res.remove(&p);
+                }
+            }
+        }
+    }
+    /// names the temporary directory the same way in every replay
+    fn normalise(&self, text: &str) -> String {
+        match &self.root {
+            Some(r) => text.replace(&*r.to_string_lossy(), "<root>"),
+            None => text.to_owned(),
+        }
+    }
 }
 
 struct World {
-    resources: Resources,
+    store: Store,
+    _guard: Option<tempfile::TempDir>,
     tree: Option<WorkerTree>,
     errors: Vec<String>,
     process_error: Option<String>,
 }
 
-fn list_files(resources: &Resources) -> BTreeMap<String, String> {
+fn list_files(store: &Store) -> BTreeMap<String, String> {
     let mut m = BTreeMap::new();
-    for p in resources.walk("") {
-        m.insert(p.to_string_lossy().replace('\\', "/"), resources.get(&p).unwrap_or_default());
+    for p in store.walk("") {
+        let c = store.get(&p).unwrap_or_default();
+        m.insert(p, c);
     }
     m
 }
@@ -91,12 +195,18 @@ fn toggled(content: &str) -> String {
 }
 
 impl World {
-    fn new() -> Result<World, String> {
-        let resources = Resources::from_memory();
+    fn new(on_disk: bool) -> Result<World, String> {
+        let (root, guard) = if on_disk {
+            let d = tempfile::tempdir().map_err(|e| format!("tempdir: {}", e))?;
+            (Some(d.path().to_path_buf()), Some(d))
+        } else {
+            (None, None)
+        };
+        let store = Store { res: if on_disk { Resources::from_file_system() } else { Resources::from_memory() }, root };
         for (p, c) in initial_files() {
-            resources.write(p, &c).map_err(|e| format!("{:?}", e))?;
+            store.write(p, &c);
         }
-        let mut w = World { resources, tree: None, errors: vec![], process_error: None };
+        let mut w = World { store, _guard: guard, tree: None, errors: vec![], process_error: None };
         w.process()?;
         Ok(w)
     }
@@ -104,95 +214,92 @@ impl World {
     /// what FileWatcher::run_worker_tree does
     fn process(&mut self) -> Result<(), String> {
         darklua_core::verif_hooks::set_walk_permutation(0);
-        let res = self.resources.clone();
+        let store = self.store.clone();
         let mut tree = self.tree.take();
         let (tree, err) = guarded(move || match tree.as_mut() {
             Some(t) => {
-                let r = t.process(&res, options());
+                let r = t.process(&store.res, store.options());
                 (tree, r.err().map(|e| e.to_string()))
             }
-            None => match darklua_core::process(&res, options()) {
+            None => match darklua_core::process(&store.res, store.options()) {
                 Ok(t) => (Some(t), None),
                 Err(e) => (None, Some(e.to_string())),
             },
         })
         .map_err(|p| format!("PANIC in process: {}", p))?;
         self.tree = tree;
-        self.process_error = err;
-        self.errors = self.tree.as_ref().map(|t| t.collect_errors().iter().map(|e| e.to_string()).collect()).unwrap_or_default();
+        self.process_error = err.map(|e| self.store.normalise(&e));
+        self.errors = self.tree.as_ref().map(|t| t.collect_errors().iter().map(|e| self.store.normalise(&e.to_string())).collect()).unwrap_or_default();
         Ok(())
     }
 
     /// what FileWatcher::process_events does for the corresponding notify events (after mutating the files)
     fn apply(&mut self, batch: &[Event]) -> Result<(), String> {
         let mut has_created = false;
-        let res = self.resources.clone();
+        let store = self.store.clone();
         let mut tree = self.tree.take();
         let batch_owned: Vec<Event> = batch.to_vec();
         let (tree, created) = guarded(move || {
             for ev in &batch_owned {
                 match ev {
                     Event::Edit(f) => {
-                        if let Ok(c) = res.get(f) {
-                            let _ = res.write(f, &toggled(&c));
+                        if let Some(c) = store.get(f) {
+                            store.write(f, &toggled(&c));
                             if let Some(t) = tree.as_mut() {
-                                t.source_changed(f);
+                                t.source_changed(store.path(f));
                             }
                         }
                     }
                     Event::Spurious(f) => {
                         if let Some(t) = tree.as_mut() {
-                            t.source_changed(f);
+                            t.source_changed(store.path(f));
                         }
                     }
                     Event::Add(f) => {
-                        if res.get(f).is_err() {
+                        if store.get(f).is_none() {
                             let body = if f.ends_with("b.lua") { "-- b v0\nreturn 'b0'\n".to_owned() } else { format!("-- {} v0\nreturn 'n0'\n", f) };
-                            let _ = res.write(f, &body);
+                            store.write(f, &body);
                             has_created = true;
                         }
                     }
                     Event::RemoveFile(f) => {
-                        if res.get(f).is_ok() {
-                            let _ = res.remove(f);
+                        if store.get(f).is_some() {
+                            store.remove_file(f);
                             if let Some(t) = tree.as_mut() {
-                                t.remove_source(f);
+                                t.remove_source(store.path(f));
                             }
                         }
                     }
                     Event::RemoveDir(d) => {
-                        let inside: Vec<_> = res.walk(d).collect();
-                        if !inside.is_empty() {
-                            for p in inside {
-                                let _ = res.remove(&p);
-                            }
+                        if !store.walk(d).is_empty() {
+                            store.remove_dir(d);
                             if let Some(t) = tree.as_mut() {
-                                t.remove_source(d);
+                                t.remove_source(store.path(d));
                             }
                         }
                     }
                     Event::Rename(from, to) => {
-                        if let Ok(c) = res.get(from) {
-                            let _ = res.remove(from);
-                            let _ = res.write(to, &c);
+                        if let Some(c) = store.get(from) {
+                            store.remove_file(from);
+                            store.write(to, &c);
                             if let Some(t) = tree.as_mut() {
-                                t.remove_source(from);
-                                t.remove_source(to);
+                                t.remove_source(store.path(from));
+                                t.remove_source(store.path(to));
                             }
                             has_created = true;
                         }
                     }
                     Event::SetConfig(i) => {
-                        let _ = res.write(".darklua.json", CONFIGS[*i]);
+                        store.write(".darklua.json", CONFIGS[*i]);
                         if let Some(t) = tree.as_mut() {
-                            t.source_changed(".darklua.json");
+                            t.source_changed(store.path(".darklua.json"));
                         }
                     }
                 }
             }
             if has_created {
                 if let Some(t) = tree.as_mut() {
-                    let _ = t.collect_work(&res, &options());
+                    let _ = t.collect_work(&store.res, &store.options());
                 }
             }
             (tree, has_created)
@@ -204,14 +311,14 @@ impl World {
     }
 
     fn key(&self) -> u128 {
-        let files = list_files(&self.resources);
-        let digest = self.tree.as_ref().map(|t| t.verif_digest()).unwrap_or_default();
+        let files = list_files(&self.store);
+        let digest = self.store.normalise(&self.tree.as_ref().map(|t| t.verif_digest()).unwrap_or_default());
         hash128(&format!("{:?}|{}|{:?}", files, digest, self.process_error))
     }
 }
 
-fn replay(history: &[Vec<Event>]) -> Result<World, String> {
-    let mut w = World::new()?;
+fn replay(history: &[Vec<Event>], on_disk: bool) -> Result<World, String> {
+    let mut w = World::new(on_disk)?;
     for batch in history {
         w.apply(batch)?;
     }
@@ -221,19 +328,21 @@ fn replay(history: &[Vec<Event>]) -> Result<World, String> {
 /// the oracle: a fresh run over the final inputs and configuration
 fn judge(w: &World) -> Vec<String> {
     let mut problems = Vec::new();
-    let files = list_files(&w.resources);
-    let fresh = Resources::from_memory();
+    let files = list_files(&w.store);
+    let on_disk = w.store.root.is_some();
+    let guard = if on_disk { tempfile::tempdir().ok() } else { None };
+    let fresh = Store { res: if on_disk { Resources::from_file_system() } else { Resources::from_memory() }, root: guard.as_ref().map(|g| g.path().to_path_buf()) };
     for (p, c) in &files {
         let generated = p.starts_with("out/") && p != "out/README.txt" && p != "out/lib/keep.me";
         if !generated {
-            let _ = fresh.write(p, c);
+            fresh.write(p, c);
         }
     }
-    let res = fresh.clone();
-    let outcome = guarded(move || darklua_core::process(&res, options()));
+    let fs2 = fresh.clone();
+    let outcome = guarded(move || darklua_core::process(&fs2.res, fs2.options()));
     let (fresh_errors, fresh_fatal): (Vec<String>, Option<String>) = match outcome {
-        Ok(Ok(t)) => (t.collect_errors().iter().map(|e| e.to_string()).collect(), None),
-        Ok(Err(e)) => (vec![], Some(e.to_string())),
+        Ok(Ok(t)) => (t.collect_errors().iter().map(|e| fresh.normalise(&e.to_string())).collect(), None),
+        Ok(Err(e)) => (vec![], Some(fresh.normalise(&e.to_string()))),
         Err(p) => return vec![format!("PANIC in the fresh run: {}", p)],
     };
     if let Some(f) = fresh_fatal {
@@ -285,21 +394,238 @@ fn judge(w: &World) -> Vec<String> {
     problems
 }
 
-pub fn run(tier: Tier) -> Report {
-    let mut report = Report::new("C10", "model_checking", tier);
-    report.rule = "project: bundle entry src/main.lua (requires ./lib/a and ../vendor/v outside the input), src/lib/a.lua (requires ./b), src/lib/b.lua, src/util/c.lua, src/solo.lua, \
-        foreign files out/README.txt and out/lib/keep.me, 5 configurations (bundle+no rules, +remove_comments, +rule filter, +dense generator, no bundle). Labels = 21 events (edit of \
-        each source / bundled dependency / external dependency, add, re-add, remove file, remove directory, rename, configuration change, spurious notifications) delivered exactly as \
-        FileWatcher::process_events does, in batches of 1 or 2 events followed by WorkerTree::process. BFS over batches from the state after the initial run, states rebuilt by replaying \
-        the history on fresh real objects and merged on (all files, WorkerTree::verif_digest, last error); after every pass the output tree is compared with a fresh darklua_core::process \
-        over the same inputs, configuration and foreign files"
-        .to_owned();
-    report.assumptions = vec![
-        "the driver starts at the WorkerTree calls FileWatcher::process_events makes (notify/debouncer translation and symlink handling are not intercepted)".to_owned(),
-        "a source that fails in the fresh run may keep a stale output; only the presence of an error for it is required".to_owned(),
-        "in-memory resources (empty-directory pruning is a file-system-only behaviour)".to_owned(),
-    ];
-    let depth = tier.pick(2, 4);
+// ------------------------------------------------------------------------------------------------ the real `--watch` process
+
+/// events delivered through the real file system to a running `darklua process src out --watch`
+#[derive(Clone, Copy, Debug, PartialEq, Eq)]
+pub enum WatchEvent {
+    MainWithDependency,
+    MainWithoutDependency,
+    EditDependency,
+    EditPlain,
+    RemovePlain,
+    CreatePlain,
+    ToggleConfig,
+}
+
+const WATCH_EVENTS: &[WatchEvent] = &[
+    WatchEvent::MainWithDependency,
+    WatchEvent::MainWithoutDependency,
+    WatchEvent::EditDependency,
+    WatchEvent::EditPlain,
+    WatchEvent::RemovePlain,
+    WatchEvent::CreatePlain,
+    WatchEvent::ToggleConfig,
+];
+
+const WATCH_CONFIGS: [&str; 2] = ["{rules: [], generator: 'dense', bundle: {require_mode: 'path'}}", "{rules: ['remove_comments'], generator: 'dense', bundle: {require_mode: 'path'}}"];
+
+fn watch_binary() -> Result<PathBuf, String> {
+    // built from /repo's working tree into a target directory of its own
+    let target = PathBuf::from(crate::common::VERIF_DIR).join("target").join("darklua-bin");
+    let out = std::process::Command::new("cargo")
+        .args(["build", "--offline", "--bin", "darklua"])
+        .current_dir("/repo")
+        .env("CARGO_TARGET_DIR", &target)
+        .env("CARGO_NET_OFFLINE", "true")
+        .output()
+        .map_err(|e| format!("cannot run cargo: {}", e))?;
+    if !out.status.success() {
+        return Err(format!("building the darklua binary failed: {}", String::from_utf8_lossy(&out.stderr).lines().rev().take(15).collect::<Vec<_>>().join(" | ")));
+    }
+    Ok(target.join("debug").join("darklua"))
+}
+
+fn expected_outputs(files: &BTreeMap<String, String>) -> BTreeMap<String, String> {
+    let r = Resources::from_memory();
+    for (p, c) in files {
+        let _ = r.write(p, c);
+    }
+    let res = r.clone();
+    let _ = guarded(move || darklua_core::process(&res, Options::new("src").with_output("out").with_configuration_at(".darklua.json")));
+    let mut m = BTreeMap::new();
+    for p in r.walk("out") {
+        let k = p.to_string_lossy().replace('\\', "/");
+        m.insert(k, r.get(&p).unwrap_or_default());
+    }
+    m
+}
+
+fn disk_outputs(root: &std::path::Path) -> BTreeMap<String, String> {
+    let store = Store { res: Resources::from_file_system(), root: Some(root.to_path_buf()) };
+    let mut m = BTreeMap::new();
+    for p in store.walk("out") {
+        let c = store.get(&p).unwrap_or_default();
+        m.insert(p, c);
+    }
+    m
+}
+
+/// runs one history against a fresh watcher process; Ok(None) when every step converged to the fresh-run outputs
+fn run_watch_history(binary: &std::path::Path, history: &[WatchEvent], timeout_ms: u64) -> Result<Option<String>, String> {
+    let dir = tempfile::tempdir().map_err(|e| e.to_string())?;
+    let root = dir.path();
+    let mut files: BTreeMap<String, String> = BTreeMap::new();
+    files.insert("src/main.lua".into(), "-- main 0\nlocal a = require(\"../lib/a\")\nreturn a\n".into());
+    files.insert("lib/a.lua".into(), "return 'A0'\n".into());
+    files.insert("src/b.lua".into(), "-- b\nreturn 'b0'\n".into());
+    files.insert(".darklua.json".into(), WATCH_CONFIGS[0].into());
+    for (p, c) in &files {
+        let full = root.join(p);
+        std::fs::create_dir_all(full.parent().unwrap()).map_err(|e| e.to_string())?;
+        std::fs::write(full, c).map_err(|e| e.to_string())?;
+    }
+    let mut child = std::process::Command::new(binary)
+        .args(["process", "src", "out", "--watch"])
+        .current_dir(root)
+        .stdin(std::process::Stdio::null())
+        .stdout(std::process::Stdio::null())
+        .stderr(std::process::Stdio::null())
+        .spawn()
+        .map_err(|e| format!("cannot start the watcher: {}", e))?;
+    let wait_for = |files: &BTreeMap<String, String>, what: &str| -> Option<String> {
+        let want = expected_outputs(files);
+        let start = std::time::Instant::now();
+        let mut stable_since: Option<std::time::Instant> = None;
+        loop {
+            let got = disk_outputs(root);
+            if got == want {
+                // the outputs must also stay that way for a moment (a late pass must not undo them)
+                match stable_since {
+                    None => stable_since = Some(std::time::Instant::now()),
+                    Some(t) if t.elapsed().as_millis() >= 700 => return None,
+                    _ => {}
+                }
+            } else {
+                stable_since = None;
+                if start.elapsed().as_millis() as u64 > timeout_ms {
+                    let diff: Vec<String> = want
+                        .iter()
+                        .filter(|(k, v)| got.get(*k) != Some(v))
+                        .map(|(k, v)| format!("{}: fresh run {:?}, watcher left {:?}", k, v, got.get(k)))
+                        .chain(got.keys().filter(|k| !want.contains_key(*k)).map(|k| format!("{}: not produced by a fresh run", k)))
+                        .collect();
+                    return Some(format!("after {}: {}", what, diff.join("; ")));
+                }
+            }
+            std::thread::sleep(std::time::Duration::from_millis(60));
+        }
+    };
+    let mut version = 0;
+    let mut config = 0;
+    let mut result = wait_for(&files, "the initial run");
+    if result.is_none() {
+        // let the watcher finish registering its watches before the first event
+        std::thread::sleep(std::time::Duration::from_millis(300));
+        for (i, ev) in history.iter().enumerate() {
+            version += 1;
+            let (path, content): (&str, Option<String>) = match ev {
+                WatchEvent::MainWithDependency => ("src/main.lua", Some(format!("-- main {}\nlocal a = require(\"../lib/a\")\nreturn a\n", version))),
+                WatchEvent::MainWithoutDependency => ("src/main.lua", Some(format!("-- main {}\nreturn 'alone'\n", version))),
+                WatchEvent::EditDependency => ("lib/a.lua", Some(format!("return 'A{}'\n", version))),
+                WatchEvent::EditPlain | WatchEvent::CreatePlain => ("src/b.lua", Some(format!("-- b\nreturn 'b{}'\n", version))),
+                WatchEvent::RemovePlain => ("src/b.lua", None),
+                WatchEvent::ToggleConfig => {
+                    config = 1 - config;
+                    (".darklua.json", Some(WATCH_CONFIGS[config].to_owned()))
+                }
+            };
+            match content {
+                Some(c) => {
+                    if *ev == WatchEvent::EditPlain && !files.contains_key("src/b.lua") {
+                        continue;
+                    }
+                    let _ = std::fs::write(root.join(path), &c);
+                    files.insert(path.to_owned(), c);
+                }
+                None => {
+                    let _ = std::fs::remove_file(root.join(path));
+                    files.remove(path);
+                }
+            }
+            if let Some(problem) = wait_for(&files, &format!("event {} ({:?})", i + 1, ev)) {
+                result = Some(problem);
+                break;
+            }
+        }
+    }
+    let _ = child.kill();
+    let _ = child.wait();
+    Ok(result)
+}
+
+fn watch_histories(tier: Tier) -> Vec<Vec<WatchEvent>> {
+    use WatchEvent::*;
+    let mut out: Vec<Vec<WatchEvent>> = Vec::new();
+    // the dependency set of the bundle entry shrinks and grows: every sequence over {with, without, edit dependency}, closed by an edit of the dependency
+    let dep = [MainWithDependency, MainWithoutDependency, EditDependency];
+    let n = tier.pick(3, 4);
+    let mut seqs: Vec<Vec<WatchEvent>> = vec![vec![]];
+    for _ in 0..n {
+        seqs = seqs.iter().flat_map(|s| dep.iter().map(move |e| { let mut t = s.clone(); t.push(*e); t })).collect();
+    }
+    for mut s in seqs {
+        s.push(EditDependency);
+        out.push(s);
+    }
+    // every sequence of the whole alphabet up to length 1 (3 thorough)
+    let len = tier.pick(1, 3);
+    let mut seqs: Vec<Vec<WatchEvent>> = vec![vec![]];
+    for _ in 0..len {
+        seqs = seqs.iter().flat_map(|s| WATCH_EVENTS.iter().map(move |e| { let mut t = s.clone(); t.push(*e); t })).collect();
+        out.extend(seqs.iter().cloned());
+    }
+    out.sort_by_key(|h| format!("{:?}", h));
+    out.dedup();
+    out
+}
+
+/// the layer above the WorkerTree: the real binary, the real notify backend, real files
+fn watch_binary_cases(tier: Tier, report: &mut Report) {
+    let binary = match watch_binary() {
+        Ok(b) => b,
+        Err(e) => crate::common::machinery_error(&e),
+    };
+    let histories = watch_histories(tier);
+    let pool = rayon::ThreadPoolBuilder::new().num_threads(12).build().expect("pool");
+    let results: Vec<(Vec<WatchEvent>, Result<Option<String>, String>)> = pool.install(|| {
+        histories
+            .par_iter()
+            .map(|h| {
+                let first = run_watch_history(&binary, h, 8_000);
+                match first {
+                    Ok(Some(_)) => {
+                        // a failure counts only if it happens again, with twice the patience
+                        let second = run_watch_history(&binary, h, 16_000);
+                        (h.clone(), second)
+                    }
+                    other => (h.clone(), other),
+                }
+            })
+            .collect()
+    });
+    let mut steps = 0u64;
+    for (h, r) in results {
+        steps += h.len() as u64 + 1;
+        report.evaluations += 1;
+        match r {
+            Ok(None) => {}
+            Ok(Some(problem)) => report.violations.push(Violation {
+                finding: None,
+                summary: format!("`darklua process src out --watch` did not converge to the outputs of a fresh run (twice): {}\n--- events written to the file system, each followed by a wait for the outputs: {:?}", problem, h),
+                replay: json!({"kind": "watch process", "history": format!("{:?}", h), "problem": problem}),
+            }),
+            Err(e) => crate::common::machinery_error(&format!("C10 watch process harness: {}", e)),
+        }
+    }
+    report.set("watch_process_histories", histories.len() as u64);
+    report.set("watch_process_steps", steps);
+}
+
+/// breadth-first search over batches from the state after the initial run, on one backend
+fn explore(on_disk: bool, tier: Tier, report: &mut Report) -> (usize, usize) {
+    let backend = if on_disk { "temporary directory on the file system" } else { "in-memory resources" };
+    let depth = if on_disk { tier.pick(1, 2) } else { tier.pick(2, 4) };
     let mut batches: Vec<Vec<Event>> = EVENTS.iter().map(|e| vec![*e]).collect();
     for a in EVENTS {
         for b in EVENTS {
@@ -312,20 +638,20 @@ pub fn run(tier: Tier) -> Report {
     // BFS level by level; each level's expansions run in parallel
     let mut seen: HashMap<u128, usize> = HashMap::new();
     let mut frontier: Vec<Vec<Vec<Event>>> = vec![vec![]];
-    let root = match replay(&[]) {
+    let root = match replay(&[], on_disk) {
         Ok(w) => w,
         Err(e) => crate::common::machinery_error(&format!("cannot build the initial state: {}", e)),
     };
     seen.insert(root.key(), 0);
     let root_problems = judge(&root);
     if !root_problems.is_empty() {
-        report.violations.push(Violation { finding: None, summary: format!("initial run: {:?}", root_problems), replay: json!({"history": []}) });
+        report.violations.push(Violation { finding: None, summary: format!("initial run ({}): {:?}", backend, root_problems), replay: json!({"history": [], "backend": backend}) });
     }
-    report.states = 1;
+    report.states += 1;
     let mut distinct_outcomes: HashSet<u128> = HashSet::new();
     for level in 0..depth {
         // pairs are explored at the first two levels (quick: first level only), single events at every level
-        let use_pairs = level < tier.pick(1, 2);
+        let use_pairs = level < if on_disk { 1 } else { tier.pick(1, 2) };
         let menu: &[Vec<Event>] = if use_pairs { &batches } else { &batches[..single_count] };
         let jobs: Vec<(usize, usize)> = (0..frontier.len()).flat_map(|i| (0..menu.len()).map(move |j| (i, j))).collect();
         let results: Vec<(Vec<Vec<Event>>, Result<(u128, Vec<String>, u128), String>)> = jobs
@@ -333,9 +659,9 @@ pub fn run(tier: Tier) -> Report {
             .map(|(i, j)| {
                 let mut h = frontier[*i].clone();
                 h.push(menu[*j].clone());
-                let r = replay(&h).map(|w| {
+                let r = replay(&h, on_disk).map(|w| {
                     let problems = judge(&w);
-                    let outcome = hash128(&format!("{:?}", list_files(&w.resources).iter().filter(|(p, _)| p.starts_with("out/")).collect::<Vec<_>>()));
+                    let outcome = hash128(&format!("{:?}", list_files(&w.store).iter().filter(|(p, _)| p.starts_with("out/")).collect::<Vec<_>>()));
                     (w.key(), problems, outcome)
                 });
                 (h, r)
@@ -348,16 +674,16 @@ pub fn run(tier: Tier) -> Report {
             match r {
                 Err(e) => report.violations.push(Violation {
                     finding: classify(&h, &[e.clone()]),
-                    summary: format!("{}\n--- history {:?}", e, h),
-                    replay: json!({"kind": "watch history", "history": format!("{:?}", h), "problem": e}),
+                    summary: format!("{}\n--- {} history {:?}", e, backend, h),
+                    replay: json!({"kind": "watch history", "backend": backend, "history": format!("{:?}", h), "problem": e}),
                 }),
                 Ok((key, problems, outcome)) => {
                     distinct_outcomes.insert(outcome);
                     if !problems.is_empty() {
                         report.violations.push(Violation {
                             finding: classify(&h, &problems),
-                            summary: format!("{}\n--- history (batches, each followed by a processing pass) {:?}", problems.join("\n"), h),
-                            replay: json!({"kind": "watch history", "history": format!("{:?}", h), "problems": problems}),
+                            summary: format!("{}\n--- {}: history (batches, each followed by a processing pass) {:?}", problems.join("\n"), backend, h),
+                            replay: json!({"kind": "watch history", "backend": backend, "history": format!("{:?}", h), "problems": problems}),
                         });
                     }
                     if !seen.contains_key(&key) {
@@ -374,11 +700,38 @@ pub fn run(tier: Tier) -> Report {
             break;
         }
     }
+    (frontier.len(), distinct_outcomes.len())
+}
+
+pub fn run(tier: Tier) -> Report {
+    let mut report = Report::new("C10", "model_checking", tier);
+    report.rule = "project: bundle entry src/main.lua (requires ./lib/a and ../vendor/v outside the input), src/lib/a.lua (requires ./b), src/lib/b.lua, src/util/c.lua, src/solo.lua, \
+        foreign files out/README.txt and out/lib/keep.me, 5 configurations (bundle+no rules, +remove_comments, +rule filter, +dense generator, no bundle). Labels = 21 events (edit of \
+        each source / bundled dependency / external dependency, add, re-add, remove file, remove directory, rename, configuration change, spurious notifications) delivered exactly as \
+        FileWatcher::process_events does, in batches of 1 or 2 events followed by WorkerTree::process. BFS over batches from the state after the initial run, states rebuilt by replaying \
+        the history on fresh real objects and merged on (all files, WorkerTree::verif_digest, last error); after every pass the output tree is compared with a fresh darklua_core::process \
+        over the same inputs, configuration and foreign files"
+        .to_owned();
+    report.assumptions = vec![
+        "the explicit-state search starts at the WorkerTree calls FileWatcher::process_events makes; the layer above (notify events, debouncing, watching of dependencies outside the input) is exercised by a smaller exhaustive set of histories against the real `darklua process --watch` binary on a temporary directory, where a failure is reported only if it happens twice; symbolic links are not exercised".to_owned(),
+        "a source that fails in the fresh run may keep a stale output; only the presence of an error for it is required".to_owned(),
+        "every history is run on in-memory resources and again in a temporary directory on the real file system (where emptied output directories are pruned)".to_owned(),
+    ];
+    let t0 = std::time::Instant::now();
+    let (left_memory, outcomes_memory) = explore(false, tier, &mut report);
+    report.set("seconds_in_memory_search", t0.elapsed().as_secs_f64());
+    let t0 = std::time::Instant::now();
+    let (left_disk, outcomes_disk) = explore(true, tier, &mut report);
+    report.set("seconds_on_disk_search", t0.elapsed().as_secs_f64());
+    let t0 = std::time::Instant::now();
+    watch_binary_cases(tier, &mut report);
+    report.set("seconds_watch_process", t0.elapsed().as_secs_f64());
     report.traces_validated = report.transitions;
     report.exhaustive = false;
-    report.set("depth_bound_batches", depth as u64);
-    report.set("frontier_left_unexpanded", frontier.len() as u64);
-    report.set("distinct_outcomes", distinct_outcomes.len() as u64);
+    report.set("depth_bound_batches_in_memory", tier.pick(2, 4) as u64);
+    report.set("depth_bound_batches_on_disk", tier.pick(1, 2) as u64);
+    report.set("frontier_left_unexpanded", (left_memory + left_disk) as u64);
+    report.set("distinct_outcomes", (outcomes_memory + outcomes_disk) as u64);
     report.set("events", json!(EVENTS.iter().map(|e| format!("{:?}", e)).collect::<Vec<_>>()));
     report.sample(json!({"history": [["Edit(\"src/lib/b.lua\")"], ["RemoveDir(\"src/lib\")", "SetConfig(1)"]]}));
     report
